@@ -68,6 +68,19 @@ def decode_case(cid: str, tmpl, x: list, with_objs: bool, rng: random.Random) ->
                             "v2": f64(float(e.evaluate(tmpl)))})
         h = Hardness(max_fes=rng.choice([16, 40]), n_runs=2)
         rec["objs"].append({"name": "hardness", "v": f64(float(h.evaluate(y))), "v2": f64(float(h.evaluate(y)))})
+        # one Hardness object evaluates this instance, then ANOTHER instance with the same name (every generated
+        # candidate of a template carries the same name), then this one again: must equal a fresh object's value
+        x2 = [rng.uniform(-1, 1) for _ in range(len(x))]
+        yb: list = []
+        dec.decode(np.array(x2, dtype=np.float64), yb)
+        hh = Hardness(max_fes=24, n_runs=2)
+        hh.evaluate(y)
+        vb = float(hh.evaluate(yb))
+        va = float(hh.evaluate(y))
+        rec["objs"].append({"name": "hardness-history", "v": f64(va),
+                            "v2": f64(float(Hardness(max_fes=24, n_runs=2).evaluate(y)))})
+        rec["objs"].append({"name": "hardness-history", "v": f64(vb),
+                            "v2": f64(float(Hardness(max_fes=24, n_runs=2).evaluate(yb)))})
         eh = EH(space, max_fes=16, n_runs=1)
         rec["objs"].append({"name": "errors-and-hardness", "v": f64(float(eh.evaluate(y))),
                             "v2": f64(float(eh.evaluate(y)))})
